@@ -85,19 +85,23 @@ class SQLImpl:
         gone = before - after
         return out, reason, gone, after - before
 
-    def gc(self, now):
+    def gc(self, now, collector=None):
+        """one pass at `now`; `collector` = a long-lived QueryGarbageCollector to reuse (as the running relay does)"""
         db = self.db
         orig = db.time
         db.time = lambda: now
 
         async def go():
-            gc = db.QueryGarbageCollector(self.storage)
+            gc = collector or db.QueryGarbageCollector(self.storage)
             async with self.storage.db.begin() as conn:
                 return await gc.collect(conn)
         try:
             return self.run(go())
         finally:
             db.time = orig
+
+    def new_collector(self):
+        return self.db.QueryGarbageCollector(self.storage)
 
     # -- queries -----------------------------------------------------------------------------
     def query(self, filters, default_limit=None):
